@@ -22,9 +22,9 @@ from . import lockskel
 
 KINDS = ("mutex", "rwlock")
 
-MUTEX_OPS = [("l", 5), ("lh", 2), ("tl", 3), ("al", 4), ("ap", 4), ("ad", 2), ("yw", 2)]
+MUTEX_OPS = [("l", 5), ("lh", 2), ("tl", 3), ("al", 4), ("ap", 4), ("ad", 2), ("yw", 2), ("ys", 2)]
 RW_OPS = [("r", 4), ("w", 4), ("rh", 1), ("wh", 2), ("tr", 2), ("tw", 2), ("ar", 3), ("aw", 3),
-          ("apr", 3), ("apw", 3), ("ad", 2), ("yw", 2)]
+          ("apr", 3), ("apw", 3), ("ad", 2), ("yw", 2), ("ys", 2)]
 
 # minimal interesting programs; they run first (and are the mutation witnesses of docs/C10.md)
 MUTEX_CORPUS = [
@@ -36,6 +36,8 @@ MUTEX_CORPUS = [
     ("m", "T: lh | T: ap yw ad | T: l"),
     ("m", "T: l | T: ap yw ad | T: ap yw ad | T: al"),
     ("m", "T: lh | T: al | T: al"),
+    ("m", "T: lh | T: al | T: tl tl tl"),        # woken async waiter loses to a barging try_lock and must be re-armed
+    ("r", "T: lh | T: ap yw ap yw ap | T: tl tl tl tl"),
     ("m", "T: l | T: tl tl | T: l"),
     ("m", "T: tl | T: tl tl | T: lh"),
     ("m", "T: lh | T: ap ap ad l | T: al tl"),
@@ -50,6 +52,9 @@ RW_CORPUS = [
     ("m", "T: rh | T: apw yw ad | T: ar"),
     ("m", "T: wh | T: apr yw ad | T: aw"),
     ("m", "T: w | T: apw yw ad | T: w | T: ar"),
+    ("r", "T: rh | T: apw ys ad | T: ar"),       # queued writer future dropped un-woken: HAS_QUEUED stays for the reader behind it
+    ("r", "T: rh | T: apw ys ad | T: apr yw"),
+    ("r", "T: rh | T: apw ys ys ad | T: ar | T: ar"),
     ("m", "T: wh | T: ar | T: ar | T: aw"),
     ("m", "T: tr tw | T: tw tr | T: wh"),
     ("b", "T: wh r | T: w rh | T: r w"),
@@ -322,10 +327,10 @@ ASSUMPTIONS = [
 
 MANIFEST = {
     "engine": "E-LOCK",
-    "engines": [{"name": "E-LOCK", "path": "coq/Sync/HMutex.v, coq/Sync/HRwLock.v, coq/Proofs/HMutex*.v, coq/Proofs/HRw*.v, coq/Props/C10.v, coq/Props/C10_rw.v, ocaml/eng_k3lock.ml, harness/sched/src/bin/lockscen.rs, vlib/engines_k3lock.py, vlib/lockskel.py",
+    "engines": [{"name": "E-LOCK", "path": "coq/Sync/HMutex.v, coq/Sync/HRwLock.v, coq/Proofs/HMutex*.v, coq/Proofs/HRw{Base,Guard,Proofs,Queue,Node,Wake,Owed,Live}.v, coq/Props/C10.v, coq/Props/C10_rw.v, ocaml/eng_k3lock.ml, harness/sched/src/bin/lockscen.rs, vlib/engines_k3lock.py, vlib/lockskel.py",
                  "kind": "K3 atomic-step models (one step per traced atomic event) of HybridMutex and HybridRwLock over the wait list; invariants for all thread counts, programs and schedules; D2 trace refinement under the deterministic scheduler + D3 source skeleton"}],
     "technique": "Coq proof (inductive invariant over all schedules of an atomic-step model) + checked tie: every scheduler-controlled execution of the real lock is replayed through the extracted model (D2), Ordering literals / operation order compared with the source (D3), scheduler-side monitors search for a failing schedule",
-    "text": "HybridMutex (Props/C10.v), for any number of threads, any programs of lock / try_lock / lock_async (block_on) / poll-once / drop-future calls and every schedule (any spin and poll-attempt budgets): C10_mutex_excl - the LOCKED bit is set iff exactly one thread holds a guard, never two (C10_mutex_critical_section: no two threads in the critical section); C10_try_nonblocking - try_lock is enabled in every state, touches only the state word and returns within two own steps (never parks, yields, spins or takes the list lock); C10_wake_owed / C10_mutex_deadlock_free - no reachable state in which no thread can step has a parked or queued waiter, a held lock or an unfinished thread (safety core of 'acquirers eventually acquire after release' and of 'a dropped future does not lose the wake-up owed to the next waiter'); C10_cancel_forwards_wake - a cancelled future whose node was WOKEN runs wake_next; C10_list_wf - the wait list has no duplicates and every linked node's owner is alive (no dangling node after a drop). HybridRwLock (Props/C10_rw.v), same quantification plus spurious compare_exchange_weak failure: C10_rw_excl - WRITE_LOCKED set implies zero readers, no read guard and exactly one write guard; the reader count equals the number of read guards (readers may coexist, Example); a write guard never coexists with any other guard; C10_writer_gate - every step that creates a read guard replaced a word without WRITE_LOCKED and without WRITER_PENDING, and WRITER_PENDING is up from a queued writer's fetch_or until it is unlinked (C10_writer_gate_up), so no NEW reader acquires while a writer is queued (safety core of 'a queued writer is not starved by a stream of readers'); C10_rw_try_nonblocking; C10_rw_release_wakes / C10_rw_cancel_forwards_wake (wake initiation only). NOT proved: 'eventually acquires under fair scheduling' (only its safety core, and that only for the mutex: the wake-owed / deadlock-freedom and list-well-formedness theorems are NOT proved for the rwlock, whose lost-wake-up freedom is covered only by the scheduler's deadlock monitor and the trace refinement, i.e. by search), bounded waiting/FIFO fairness, anything about weak memory.",
+    "text": "HybridMutex (Props/C10.v), for any number of threads, any programs of lock / try_lock / lock_async (block_on) / poll-once / drop-future calls and every schedule (any spin and poll-attempt budgets): C10_mutex_excl - the LOCKED bit is set iff exactly one thread holds a guard, never two (C10_mutex_critical_section: no two threads in the critical section); C10_try_nonblocking - try_lock is enabled in every state, touches only the state word and returns within two own steps (never parks, yields, spins or takes the list lock); C10_wake_owed / C10_mutex_deadlock_free - no reachable state in which no thread can step has a parked or queued waiter, a held lock or an unfinished thread (safety core of 'acquirers eventually acquire after release' and of 'a dropped future does not lose the wake-up owed to the next waiter'); C10_cancel_forwards_wake - a cancelled future whose node was WOKEN runs wake_next; C10_list_wf - the wait list has no duplicates and every linked node's owner is alive (no dangling node after a drop). HybridRwLock (Props/C10_rw.v), same quantification plus spurious compare_exchange_weak failure: C10_rw_excl - WRITE_LOCKED set implies zero readers, no read guard and exactly one write guard; the reader count equals the number of read guards (readers may coexist, Example); a write guard never coexists with any other guard; C10_writer_gate - every step that creates a read guard replaced a word without WRITE_LOCKED and without WRITER_PENDING, and WRITER_PENDING is up from a queued writer's fetch_or until it is unlinked (C10_writer_gate_up), so no NEW reader acquires while a writer is queued (safety core of 'a queued writer is not starved by a stream of readers'); C10_rw_try_nonblocking; C10_rw_wake_owed / C10_rw_deadlock_free - no reachable state in which no thread can step has a parked or queued reader/writer (sync or block_on), a held lock or an unfinished thread: in particular a linked writer is never left parked with the lock free (safety core of 'acquirers eventually acquire' and of 'a queued writer is not starved'); C10_rw_list_wf - no owner linked twice, the owner of every linked node is alive and of the node's kind (no dangling node after a read/write future drop); C10_rw_wake_in_flight / C10_rw_woken_has_token (the wake-owed invariants: lock free and list non-empty implies a wake_waiters is on its way - incl. the drop of a WOKEN future - or the wake target is awake; a WOKEN parked waiter has its token or its handle is in a wake list still to be fired); C10_rw_cancel_forwards_wake; C10_rw_release_wakes. NOT proved (either lock): 'eventually acquires under fair scheduling' (only the safety core above), bounded waiting/FIFO fairness, anything about weak memory.",
     "design_ref": "DESIGN.md §8 C10, §7 E-LOCK, §5.2-5.3",
     "note": "Trusted: Coq kernel, extraction + OCaml trace driver, hook H1 (traced sync backend) and the baton scheduler, the scenario runner. SC abstraction of the C11 memory model; spin budgets abstracted; list pointers abstracted to a list of owners.",
 }
